@@ -81,6 +81,16 @@ func (c ColNullable[T]) Type() ColumnType {
 	return ColumnTypeNullable.Sub(c.Values.Type())
 }
 
+// Prepare prepares values column for encoding, if it requires that.
+func (c *ColNullable[T]) Prepare() error {
+	if v, ok := c.Values.(Preparable); ok {
+		if err := v.Prepare(); err != nil {
+			return errors.Wrap(err, "prepare values")
+		}
+	}
+	return nil
+}
+
 func (c *ColNullable[T]) DecodeColumn(r *Reader, rows int) error {
 	if err := c.Nulls.DecodeColumn(r, rows); err != nil {
 		return errors.Wrap(err, "nulls")
